@@ -1,5 +1,6 @@
 import Alpen.Model.Daemon
 import Alpen.Lemmas.World
+import Alpen.Lemmas.Seen
 /-! helper lemmas for C05 (progress / classification) and C09 (crash prefixes) -/
 namespace Alpen
 open World
@@ -148,13 +149,24 @@ theorem mem_iterateOps_delete (w : World) (hv : HostView) (hids : (w.copies.map 
   rw [find?_id_of_mem w.copies hids c hc]
   rfl
 
-theorem mem_iterateOps_decide (w : World) (hv : HostView) (r : WReq) (hr : r ∈ w.reqs)
-    (hc : r.completed = false) (hx : r.cancelled = false)
-    (hg : ∃ n ∈ w.nodes, n.group = r.groupTo ∧ n.id ∈ w.usableIds hv) :
+/-- `r` is the first pending request for its file into its group (the one `seen_files` lets through) -/
+def World.FirstPending (w : World) (hv : HostView) (r : WReq) : Prop :=
+  ∃ pre post, w.pendingInto hv = pre ++ r :: post ∧ ∀ q ∈ pre, (q.file, q.groupTo) ≠ (r.file, r.groupTo)
+
+theorem mem_iterateOps_decide (w : World) (hv : HostView) (r : WReq) (hfirst : w.FirstPending hv r) :
     WOp.decide r true ∈ iterateOps w hv := by
   unfold iterateOps
   dsimp only
-  refine List.mem_append_right _ (List.mem_map.mpr ⟨r, List.mem_filter.mpr ⟨hr, ?_⟩, rfl⟩)
+  obtain ⟨pre, post, heq, hpre⟩ := hfirst
+  refine List.mem_append_right _ (List.mem_map.mpr ⟨r, ?_, rfl⟩)
+  rw [heq]
+  exact firstPerFile_first [] pre post r (by simp) hpre
+
+theorem mem_pendingInto (w : World) (hv : HostView) (r : WReq) (hr : r ∈ w.reqs)
+    (hc : r.completed = false) (hx : r.cancelled = false)
+    (hg : ∃ n ∈ w.nodes, n.group = r.groupTo ∧ n.id ∈ w.usableIds hv) : r ∈ w.pendingInto hv := by
+  unfold World.pendingInto
+  refine List.mem_filter.mpr ⟨hr, ?_⟩
   obtain ⟨n, hn, h1, h2⟩ := hg
   simp only [hc, hx, Bool.not_false, Bool.true_and, List.any_eq_true, Bool.and_eq_true, beq_iff_eq,
     List.contains_iff_mem]
